@@ -102,8 +102,9 @@ func runC16Concurrent(env *sim.Env) {
 		"/lib.jet": `{{block lb()}}[lb]{{end}}`,
 		"/z.jet":   `{{import "/lib.jet"}}[z]{{yield lb()}}`,
 		"/w.jet":   `{{extends "/y.jet"}}`,
+		"/rec.jet": `[r{{.}}]{{if . > 0}}{{include "/rec.jet" dec(.)}}{{end}}`,
 	}
-	want := map[string]string{"/x.jet": "[x]", "/y.jet": "[y][x]", "/lib.jet": "[lb]", "/z.jet": "[z][lb]", "/w.jet": "[y][x]"}
+	want := map[string]string{"/x.jet": "[x]", "/y.jet": "[y][x]", "/lib.jet": "[lb]", "/z.jet": "[z][lb]", "/w.jet": "[y][x]", "/rec.jet": "[r3][r2][r1][r0]"}
 	parseSrcs := []string{
 		`{{import "/lib.jet"}}[p]{{yield lb()}}`,
 		`{{extends "/y.jet"}}`,
@@ -175,7 +176,13 @@ func runC16Concurrent(env *sim.Env) {
 					r.ok, r.ptr = true, tm
 					if o.kind != "get" {
 						var b strings.Builder
-						if err := tm.Execute(&b, nil, nil); err != nil {
+						var data interface{}
+						vm := jet.VarMap{}
+						vm.Set("dec", func(n int) int { return n - 1 })
+						if o.name == "/rec.jet" {
+							data = 3
+						}
+						if err := tm.Execute(&b, vm, data); err != nil {
 							r.err = err.Error()
 							r.ok = false
 						}
@@ -251,6 +258,18 @@ func runC16Concurrent(env *sim.Env) {
 				env.Violate("concurrent-history", "put-in-parse", "client %d: Set.Parse(%s) put %s into the cache\nhistory: %s", r.client, sim.Q(r.op.src), sc.path, h)
 			}
 			continue
+		}
+		if dev && r.op.kind == "exec" && r.op.name == "/rec.jet" {
+			// a template that includes itself three levels deep: four lookups, each of which reads the file
+			n := 0
+			for _, sc := range seams.calls {
+				if sc.client == r.client && sc.seq >= r.call && sc.seq <= r.ret && sc.seam == "Open" && sc.path == "/rec.jet" {
+					n++
+				}
+			}
+			if n < 4 {
+				env.Violate("concurrent-history", "dev-mode-no-reload", "client %d: executing /rec.jet (includes itself three levels deep) in development mode opened the file %d time(s); every one of its four lookups must read the loader\nhistory: %s", r.client, n, h)
+			}
 		}
 		if dev {
 			// development mode: every lookup re-reads the loader, nothing is ever put
